@@ -118,7 +118,7 @@ def run(ctx, rep):
     shared.include(ctx, rep, lambda c_, r_: modular.check(c_, r_, _CV.get(c_)), {'R1.2'}, why='360->0 seam hygiene of the interpolation')
     # shared mechanism: the clock-time conversion wraps into [0, 24) after the offset and cannot fail (R11.4, R11.7)
     from . import shared, c11 as _c11
-    shared.include(ctx, rep, _c11.run, {'R11.4', 'R11.7'}, why='every reported hour becomes a valid clock time')
+    shared.include(ctx, rep, _c11.run, {'R11.3', 'R11.4', 'R11.7'}, why='every reported hour becomes a valid clock time (minutes from the same hour, wraps, bounded operands)')
     # the interval definitions (Isha = Maghrib + intervals[Isha]/60, ...) are what makes the schedule of an interval method
     # complete and ordered under policy None
     from . import c12 as _c12
